@@ -250,6 +250,11 @@ let run_op (op : string) (r : rd) : unit =
                     put_list (fun (p, t) -> put_str p; sp (); put_str t) (Reader.writer_run foam w target ops)
   | "xml_parse" -> let nb = get_bool r in let n = get_int r in let e = get_elem r in
                    let (d, c) = Xml.xml_parse nb e n in put_tree (Value.Dict d); sp (); put_int c
+  | "xml_parse_doc" -> let nb = get_bool r in let n = get_int r in
+                       let ps = get_list r (fun r -> get_opt r get_str) in let us = get_list r get_str in
+                       let e = get_elem r in
+                       let (d, c) = Xml.parse_doc nb (List.combine ps us) e n in put_tree (Value.Dict d); sp (); put_int c
+  | "xml_format_doc" -> put_opt (fun ((p, u), e) -> put_str p; sp (); put_str u; sp (); put_elem e) (Xml.format_doc (get_kvs r))
   | "xml_populate" -> let tag = get_str r in let t = get_tree r in put_elem (Xml.populate tag t)
   | _ -> raise (Bad ("op:" ^ op))
 
